@@ -34,6 +34,7 @@ type KnownOutcome struct {
 }
 
 type Case struct {
+	Pad     *PadSpec       `json:"pad"`    // zero-padding law: operands to pad with zeros up to 1024 hidden units / 512 input features (exec_pad.go)
 	Tile    *TileSpec      `json:"tile"`   // tiling law: inputs to repeat along axis 0 (exec_tile.go)
 	Repeat  int            `json:"repeat"` // determinism: the case is executed this many times, all results bit for bit the same
 	Prop    string         `json:"prop"`
